@@ -1,12 +1,15 @@
 #![cfg_attr(feature = "pattern", feature(pattern))]
 //! Correspondence harness for the regress verification framework.
 //! Built with RUSTFLAGS="--cfg regress_verif" against /repo's working tree.
+mod adv;
 mod api;
 mod cpsops;
 mod dump;
 mod gen;
 mod specgen;
 mod threads;
+#[cfg(feature = "utf16")]
+mod utf16;
 #[cfg(feature = "pattern")]
 mod searcher;
 
@@ -345,6 +348,11 @@ fn main() {
         Some("fold") => cpsops::cmd_fold(&args[2..]),
         Some("props") => cpsops::cmd_props(&args[2..]),
         Some("threads") => threads::cmd_threads(&args[2..]),
+        Some("adv") => adv::cmd_adv(&args[2..]),
+        Some("advlist") => adv::cmd_advlist(),
+        Some("advfuzz") => adv::cmd_advfuzz(&args[2..]),
+        #[cfg(feature = "utf16")]
+        Some("utf16") => utf16::cmd_utf16(&args[2..]),
         #[cfg(feature = "pattern")]
         Some("searcher") => searcher::cmd_searcher(&args[2..]),
         _ => {
